@@ -2,7 +2,9 @@
 """mkbuilder.py <round> <name> <Cxx> [Cyy…] [-- extra task text file]: create the worktrees of a builder sub-agent
 (/var/tmp/bw-<name>: /verif on branch build<round>-<name>; /var/tmp/br-<name>: /repo on branch fix<round>-<name>),
 copy the Lean build output so that it does not rebuild from scratch, and print the builder's prompt.
-Integration afterwards: R=<round> ./integrate.sh <name> <Cxx>…"""
+Integration afterwards: R=<round> ./integrate.sh <name> <Cxx>…
+Re-runs of stored changes: seeded/stream.sh Cxx "seeded/<id> benign/<id> …" (one sequential stream per property; never two
+checks of the same property at once in one tree); re-basing stored patches: give a sub-agent seeded/rebase-prompt.txt + a list."""
 import json, os, subprocess, sys, glob, shutil
 
 rnd, name = sys.argv[1], sys.argv[2]
